@@ -216,7 +216,7 @@ def operator(mult=None, tables=False, retable=False, exact=False):
         "clone": st.tuples(st.just("clone"), idx, st.sampled_from(["copy", "deepcopy", "pickle"])).map(list),
         "add": st.tuples(st.just("add"), idx, idx).map(list),
         "mul": st.tuples(st.just("mul"), n, idx).map(list),
-        "iadd": st.tuples(st.just("iadd"), idx, idx).map(list),
+        "iadd": st.tuples(st.just("iadd"), idx, idx, st.sampled_from([False, False, True])).map(list),
     }
     kinds = ["chtable"] * 2 + ["again"] + ["copy"] * 2 + ["clone"] * 2 + ["add"] * 3 + ["mul"] * 4 + ["iadd"] * 4
     if retable:
@@ -293,7 +293,7 @@ def _operator(mult=None):
         st.tuples(st.just("mul"), n, idx).map(list),
         st.tuples(st.just("iadd"), idx, idx).map(list),
         st.tuples(st.just("iadd"), idx, idx).map(list),
-        st.tuples(st.just("iadd"), idx, idx).map(list),
+        st.tuples(st.just("iadd"), idx, idx, st.just(True)).map(list),
         # build the same thing again (same string / atom / dict / sequence as an earlier constructor):
         # a constructor must give a fresh formula every time, whatever happened to the earlier one
         st.tuples(st.just("again"), idx).map(list),
@@ -579,12 +579,14 @@ def _interpret(E, ops, observer, before, mag, vars_, flags, skipped, ctor_ops, s
             if a.operand:
                 flags["iadd-after-operand"] = True
             obj = a.f
-            obj += b.f
+            # ["iadd", i, j, True]: twice in a row, nothing read in between (the second structure tuple may land at
+            # the address of the first one's predecessor: a memo validated by identity would go stale)
+            for _ in range(2 if (len(op) > 3 and op[3]) else 1):
+                obj += b.f
+                a.comp = madd(a.comp, b.comp)
             st_.operands = [j]
             st_.changed = i
-            newcomp = madd(a.comp, b.comp)
             a.exact = a.exact and b.exact
-            a.comp = newcomp
             st_.inputs = ("iadd", obj, a.f)
             a.f = obj
             v = None
